@@ -27,6 +27,11 @@ RUNS = [
          quick=dict(explore=200000), thorough=dict(explore=2000000)),
     dict(name="event-k4", prim="event", cfg="4 0", flavours=["local"],
          quick=dict(explore=30000), thorough=dict(explore=3000000), corpus=False),
+    # 300 waiters queued at once (scripted histories, tools/gen_big.py -> corpus/<run>.txt): served one
+    # by one, cancelled in bulk, woken by one set(); a count narrowed to 8 bits needs 256 waiters
+    dict(name="event-big", prim="event", cfg="300 0", flavours=["local", "sync"], quick=dict(explore=0), thorough=dict(explore=0)),
+    dict(name="mutex-big-unfair", prim="mutex", cfg="300 0", flavours=["local", "sync"], quick=dict(explore=0), thorough=dict(explore=0)),
+    dict(name="mutex-big-fair", prim="mutex", cfg="300 1", flavours=["local", "sync"], quick=dict(explore=0), thorough=dict(explore=0)),
     # mutex: cfg = slots, fair
     dict(name="mutex-k3-unfair", prim="mutex", cfg="3 0", flavours=["local", "sync"],
          quick=dict(explore=500000, random=(300, 80), scale=(80, 80, 30)), thorough=dict(explore=500000, random=(5000, 300), scale=(800, 120, 30)), random_cfg="10 0"),
@@ -166,7 +171,7 @@ RUNS += [
 ]
 MPMC_RUNS = ["mpmc-c0", "mpmc-c1", "mpmc-c2", "mpmc-c1-22", "mpmc-c1-31", "mpmc-c2-22", "mpmc-shared-c0", "mpmc-shared-c1", "mpmc-shared-c1-h3", "mpmc-sw-c0", "mpmc-sw-c1", "mpmc-sw-shared"]
 ONESHOT_RUNS = ["oneshot-local", "bcast-local", "oneshot-shared", "bcast-shared", "oneshot-sw", "bcast-sw", "bcast-sw-shared"]
-MUTEX_RUNS = ["mutex-k3-unfair", "mutex-k3-fair", "mutex-k4-unfair", "mutex-k4-fair", "mutex-sw-unfair", "mutex-sw-fair"]
+MUTEX_RUNS = ["mutex-k3-unfair", "mutex-k3-fair", "mutex-k4-unfair", "mutex-k4-fair", "mutex-sw-unfair", "mutex-sw-fair", "mutex-big-unfair", "mutex-big-fair"]
 SEM_RUNS = ["sem-k2-unfair", "sem-k2-fair", "sem-k2-unfair-p1", "sem-k2-fair-p1", "sem-k3-unfair", "sem-k3-fair", "sem-max-unfair", "sem-max-fair", "sem-k3-p3-unfair", "sem-k3-p3-fair", "sem-sw-unfair", "sem-sw-fair"]
 
 # ---------------------------------------------------------------------------------------------
